@@ -390,7 +390,8 @@ impl M2Model {
         }
 
         let count = self.header.views.count as usize;
-        let mut skins = Vec::with_capacity(count);
+        // Each ModelView takes 44 bytes in the file, so the data bounds what is reserved
+        let mut skins = Vec::with_capacity(count.min(original_m2_data.len() / 44));
 
         for i in 0..count {
             skins.push(self.parse_embedded_skin(original_m2_data, i)?);
